@@ -22,9 +22,9 @@ for SD in "$@"; do
   fi
   with=-1; without=-1
   if [ $ok = 1 ]; then
-    timeout 600 bash "$SD/demo/run.sh" "$W/repo" >"$W/demo_with.log" 2>&1; with=$?
+    GALAXY_REPO="$W/repo" timeout 600 bash "$SD/demo/run.sh" "$W/repo" >"$W/demo_with.log" 2>&1; with=$?
     git -C "$W/repo" apply -R "$SD/patch.diff"
-    timeout 600 bash "$SD/demo/run.sh" "$W/repo" >"$W/demo_without.log" 2>&1; without=$?
+    GALAXY_REPO="$W/repo" timeout 600 bash "$SD/demo/run.sh" "$W/repo" >"$W/demo_without.log" 2>&1; without=$?
     [ $with != 0 ] && [ $without = 0 ] || { ok=0; notes="demo: with=$with without=$without"; }
   fi
   if [ $ok = 1 ]; then
